@@ -38,8 +38,9 @@
     Statement.Pipeline / Allocate for shared-GPU pods
     (gpu_sharing.AllocateFractionalGPUTaskToNode) is part of the command
     ([Some groups]).
-    Left out: DRA ResourceClaimInfo (restored verbatim by the code, never
-    changed by the modelled fragment), eviction message / metadata, other
+    DRA ResourceClaimInfo and the dynamicresources plugin's handlers are in
+    Model/SessionClaims.v (a separate machine over the same commands).
+    Left out: eviction message / metadata, other
     plugins' event handlers, storage claims, pod affinity.  What
     NodeInfo.addTask -> setAcceptedResources makes of a pod on a node (device
     memory of a fraction, accepted GPU portion of a gpu-memory request: both
